@@ -148,6 +148,44 @@ def programs():
                 mk_x = {"k": "let", "var": x, "ty": "Pair", "tag": "Tup", "args": [ext(A), ext(B)], "next": call}
                 body = mk_x if sibling == 'none' else {"k": "let", "var": y, "ty": "Pair", "tag": "Tup", "args": [ext(B), ext(C)], "next": mk_x}
                 out.append(wrap(f"switch-reuse/{''.join(live) or '-'}/{'last' if last else 'notlast'}/{sibling}", body, [g]))
+    # closures: empty environment while variables are live; a closure captured by a second one; clauses using different
+    # subsets of the captured variables; invoke without arguments; nullary constructor with live variables; a conditional
+    # whose branches need different environments (one of them a direct call); a definition that ignores its parameters
+    CONT = lambda v: {"var": v, "chi": "cns", "ty": "Cont"}
+    FUN2 = lambda v: {"var": v, "chi": "cns", "ty": "Fun2"}
+    for af in ([], ['a'], ['c', 'b'], ['a', 'b', 'c']):
+        tagn = ''.join(af) or '-'
+        k, px, py = V("k", 20), V("px", 21), V("py", 22)
+        cl = [{"xtor": "ap", "context": [ext(px), ext(py)], "body": uses([py], exit_with(px))}, {"xtor": "other", "context": [], "body": {"k": "literal", "lit": 5, "var": V("l", 23), "next": exit_with(V("l", 23))}}]
+        body = {"k": "create", "var": k, "ty": "Fun2", "context": None, "clauses": cl,
+                "next": uses([POOL[v] for v in af], {"k": "invoke", "var": k, "tag": "ap", "ty": "Fun2", "args": [ext(A), ext(B)]})}
+        out.append(wrap(f"closure-empty-env/{tagn}", body))
+        body = {"k": "create", "var": k, "ty": "Fun2", "context": None,
+                "clauses": [{"xtor": "ap", "context": [ext(px), ext(py)], "body": uses([py, A, B], exit_with(px))},
+                            {"xtor": "other", "context": [], "body": uses([C], exit_with(C))}],
+                "next": uses([POOL[v] for v in af], {"k": "invoke", "var": k, "tag": "other", "ty": "Fun2", "args": []})}
+        out.append(wrap(f"closure-subsets-invoke0/{tagn}", body))
+        k1, k2, r1, r2 = V("k1", 30), V("k2", 31), V("r", 32), V("r", 33)
+        c1 = [{"xtor": "Ret", "context": [ext(r1)], "body": uses([r1, A], exit_with(r1))}]
+        c2 = [{"xtor": "Ret", "context": [ext(r2)], "body": uses([B, r2], {"k": "invoke", "var": k1, "tag": "Ret", "ty": "Cont", "args": [ext(r2)]})}]
+        body = {"k": "create", "var": k1, "ty": "Cont", "context": None, "clauses": c1,
+                "next": {"k": "create", "var": k2, "ty": "Cont", "context": None, "clauses": c2,
+                         "next": uses([POOL[v] for v in af], {"k": "invoke", "var": k2, "tag": "Ret", "ty": "Cont", "args": [ext(C)]})}}
+        out.append(wrap(f"closure-captures-closure/{tagn}", body))
+        o, yv = V("o", 60), V("yv", 61)
+        body = {"k": "let", "var": o, "ty": "Opt", "tag": "No", "args": [],
+                "next": uses([POOL[v] for v in af], {"k": "switch", "var": o, "ty": "Opt",
+                                                     "clauses": [{"xtor": "No", "context": [], "body": uses([B], exit_with(A))},
+                                                                 {"xtor": "Yes", "context": [ext(yv)], "body": uses([yv, C], exit_with(yv))}]})}
+        out.append(wrap(f"let-nullary/{tagn}", body))
+        f3 = {"name": "f3", "context": [ext(V("x", 40)), ext(V("y", 41)), ext(V("z", 42))], "body": uses([V("y", 41)], exit_with(V("x", 40)))}
+        body = {"k": "ifc", "sort": "lt", "fst": A, "snd": B,
+                "thenc": {"k": "call", "label": "f3", "args": [ext(C), ext(A), ext(B)]},
+                "elsec": uses([POOL[v] for v in af], exit_with(C))}
+        out.append(wrap(f"ifc-branch-call/{tagn}", body, [f3]))
+        g0 = {"name": "g0", "context": [ext(V("x", 43)), ext(V("y", 44)), ext(V("z", 45))],
+              "body": {"k": "literal", "lit": 9, "var": V("m", 46), "next": uses([V("m", 46)] + ([V("y", 44)] if 'a' in af else []), exit_with(V("m", 46)))}}
+        out.append(wrap(f"unused-params/{tagn}", {"k": "call", "label": "g0", "args": [ext(A), ext(B), ext(C)]}, [g0]))
     # the variable with the LARGEST id of the whole program is the one that gets duplicated by the first renaming
     h = {"name": "h", "context": [ext(V("x", 5)), ext(V("y", 6)), ext(V("z", 7))],
          "body": uses([V("z", 7), V("x", 5), V("y", 6)], exit_with(V("y", 6)))}
